@@ -4,7 +4,7 @@ receive faults at every position, error / garbage / truncated replies, failing d
 call must return exactly what the *same call on an empty healthy server of the real code* returns, and the object must
 be usable afterwards.  Correspondence: Lean `Client.call` with ignoreExc."""
 from clientlib import CASDEFAULT, DEFAULT, call_tokens, canon_value, cfg_tok, SOCK_CODES
-from common import Ctx, hx, import_repo
+from common import FakeClock, Ctx, hx, import_repo
 from faultrun import FAULT_KINDS, MUTATIONS, Scripted, ev_tokens
 
 
@@ -209,7 +209,7 @@ def main(argv):
     import pymemcache.client.hash as hash_mod
     import pymemcache.pool as pool_mod
     clock = [5000.0]
-    fake_time = type("T", (), {"time": staticmethod(lambda: clock[0])})
+    fake_time = FakeClock(lambda: clock[0])
     real_ht, real_pt = hash_mod.time, pool_mod.time
     hash_mod.time = pool_mod.time = fake_time
     try:
